@@ -92,3 +92,159 @@ class CopyExpansion(Harness):
         if got != sorted(want_uids):
             return {"observed": {"copied": got, "reply": tagged}, "clause": f"copied exactly the messages with UIDs {sorted(want_uids)}"}
         return None
+
+
+class SearchExact(Harness):
+    """SEARCH / UID SEARCH return exactly the matching messages (C14), against a reference evaluator."""
+
+    scope = "6-message mailbox after expunging UID 2; flags Seen/Flagged/Deleted/keyword on fixed subsets; programs of depth<=2 over flag keys, sets, UID sets, sizes, NOT/OR/AND"
+    exhaustive = False
+
+    ATOMS = ["ALL", "SEEN", "UNSEEN", "FLAGGED", "UNFLAGGED", "DELETED", "KEYWORD kw", "UNKEYWORD kw", "2:3", "4:*", "3:1", "UID 4:5", "UID 6:*", "UID 1,7",
+             "LARGER 200", "SMALLER 200", "NEW", "OLD", "RECENT"]
+
+    def inputs(self, tier, seed):
+        for a in self.ATOMS:
+            yield {"prog": a}
+        for a in self.ATOMS:
+            yield {"prog": f"NOT {a}"}
+        import random
+
+        r = random.Random(seed)
+        pairs = [(a, b) for a in self.ATOMS for b in self.ATOMS]
+        r.shuffle(pairs)
+        for a, b in pairs[: (40 if tier == "quick" else 200)]:
+            yield {"prog": f"OR {a} {b}"}
+            yield {"prog": f"{a} {b}"}
+            yield {"prog": f"NOT OR {a} NOT {b}"}
+            yield {"prog": f"({a} {b})"}
+
+    def setup(self):
+        self._cache = None
+
+    def world(self):
+        # one mailbox for the whole run (searches do not change anything but \\Recent)
+        return None
+
+    def check(self, inp):
+        import re
+
+        async def go():
+            bodies = ["x" * (40 * i) for i in range(6)]
+            from .realsrv import make_message
+
+            async with World({"inbox": [make_message(i + 1, bodies[i]) for i in range(6)]}) as w:
+                a = w.session("a")
+                await a.cmd("SELECT inbox")
+                await a.cmd("STORE 2 +FLAGS (\\Deleted)")
+                await a.cmd("EXPUNGE")
+                await a.cmd("UID STORE 1,4 +FLAGS (\\Seen)")
+                await a.cmd("UID STORE 3,4 +FLAGS (\\Flagged)")
+                await a.cmd("UID STORE 5 +FLAGS (\\Deleted kw)")
+                await a.cmd("UID STORE 6 +FLAGS (kw)")
+                fl = await a.cmd("UID FETCH 1:* (FLAGS RFC822.SIZE)")
+                info = {}
+                for ln in fl:
+                    m = re.match(r"\* (\d+) FETCH \((.*)\)\r\n", ln)
+                    if m and "UID " in m.group(2) and "RFC822.SIZE" in m.group(2):
+                        seqn = int(m.group(1))
+                        uid = int(re.search(r"UID (\d+)", m.group(2)).group(1))
+                        flags = set(re.search(r"FLAGS \(([^)]*)\)", m.group(2)).group(1).split())
+                        flags.discard("\\Recent")  # reporting FLAGS ends the message's \Recent status for later commands
+                        size = int(re.search(r"RFC822.SIZE (\d+)", m.group(2)).group(1))
+                        info[seqn] = (uid, flags, size)
+                s1 = await a.cmd("SEARCH " + inp["prog"])
+                s2 = await a.cmd("UID SEARCH " + inp["prog"])
+                return info, s1, s2
+
+        info, s1, s2 = run(go())
+        n = len(info)
+        mxuid = info[n][0]
+
+        def parse_set(txt, mx):
+            out = set()
+            for part in txt.split(","):
+                if ":" in part:
+                    x, y = [mx if t == "*" else int(t) for t in part.split(":")]
+                    out |= set(range(min(x, y), max(x, y) + 1))
+                else:
+                    out.add(mx if part == "*" else int(part))
+            return out
+
+        def atom(tok, toks, seqn):
+            uid, flags, size = info[seqn]
+            t = tok.upper()
+            if t == "ALL":
+                return True
+            if t == "SEEN":
+                return "\\Seen" in flags
+            if t == "UNSEEN":
+                return "\\Seen" not in flags
+            if t == "FLAGGED":
+                return "\\Flagged" in flags
+            if t == "UNFLAGGED":
+                return "\\Flagged" not in flags
+            if t == "DELETED":
+                return "\\Deleted" in flags
+            if t == "RECENT":
+                return "\\Recent" in flags
+            if t == "NEW":
+                return "\\Recent" in flags and "\\Seen" not in flags
+            if t == "OLD":
+                return "\\Recent" not in flags
+            if t == "KEYWORD":
+                return toks.pop(0) in flags
+            if t == "UNKEYWORD":
+                return toks.pop(0) not in flags
+            if t == "LARGER":
+                return size > int(toks.pop(0))
+            if t == "SMALLER":
+                return size < int(toks.pop(0))
+            if t == "UID":
+                return uid in parse_set(toks.pop(0), mxuid)
+            if t == "NOT":
+                return not key(toks, seqn)
+            if t == "OR":
+                x = key(toks, seqn)
+                y = key(toks, seqn)
+                return x or y
+            if t.startswith("("):
+                inner = []
+                depth = 0
+                cur = [tok[1:]] + toks
+                # collect until the matching ")"
+                res = True
+                sub = []
+                while True:
+                    x = cur.pop(0)
+                    if x.endswith(")"):
+                        sub.append(x[:-1])
+                        break
+                    sub.append(x)
+                del toks[:]
+                toks.extend(cur)
+                while sub:
+                    res = key(sub, seqn) and res
+                return res
+            return seqn in parse_set(tok, n)
+
+        def key(toks, seqn):
+            return atom(toks.pop(0), toks, seqn)
+
+        def ev(seqn):
+            toks = inp["prog"].split()
+            res = True
+            while toks:
+                res = key(toks, seqn) and res
+            return res
+
+        want = [i for i in range(1, n + 1) if ev(i)]
+        got1 = [int(x) for l in s1 if l.startswith("* SEARCH") for x in l.split()[2:]]
+        got2 = [int(x) for l in s2 if l.startswith("* SEARCH") for x in l.split()[2:]]
+        if not any(l.startswith("* SEARCH") for l in s1):
+            return {"observed": s1, "clause": "a * SEARCH line is sent"}
+        if got1 != want:
+            return {"observed": got1, "clause": f"SEARCH {inp['prog']} == {want}"}
+        if got2 != [info[i][0] for i in want]:
+            return {"observed": got2, "clause": f"UID SEARCH {inp['prog']} == {[info[i][0] for i in want]}"}
+        return None
